@@ -984,9 +984,6 @@ def check_z_index(case, rec):
                 fail(f"new kitty widget: {bad}; live z-indexes {sorted(model.live)}", {"kind": "z_alloc"})
             if w._ti_style_args.get("z_index") != z:
                 fail(f"widget holds z-index {z} but renders with {w._ti_style_args.get('z_index')}", {"kind": "z_args"})
-            blend_expected = name == "konsole"
-            if w._ti_style_args.get("blend", True) != blend_expected:
-                pass  # judged through the terminal model in the redraw clauses, not here
             widgets.append([w, z])
             _PRIOR.append(weakref.ref(w))
             w = None
